@@ -41,6 +41,7 @@ func UnionToObject(att *AttributeExpr) *AttributeExpr {
 		{Name: "Value", Attribute: &AttributeExpr{
 			Type:         String,
 			Description:  "JSON encoded union value",
+			Validation:   &ValidationExpr{Format: FormatJSON},
 			UserExamples: []*ExampleExpr{{Value: string(js)}},
 			Bases:        bases, // For OpenAPI generation
 			Meta: MetaExpr{
